@@ -1,44 +1,21 @@
 use amc::world::*;
 use amc::alphabet::*;
-use automerge::{ReadDoc, TextEncoding};
-fn main(){ second();
+use automerge::{AutoCommit, ReadDoc, TextEncoding, LoadOptions, ChangeHash};
+use automerge::transaction::Transactable;
+fn main(){
     let enc = TextEncoding::UnicodeCodePoint;
-    let b = base("B1", enc);
-    let mut r0 = b.fork().with_actor(actor(0x10));
-    let mut r1 = b.fork().with_actor(actor(0x90));
-    edit_commit(&mut r0, &Op::Put(Role::T, Key::I(Pos::Mid), Val::Str("w")));
-    edit_commit(&mut r0, &Op::Splice(Role::T, Pos::Start, 0, "a"));
-    edit_commit(&mut r1, &Op::Put(Role::T, Key::I(Pos::Mid), Val::Str("w")));
-    let h1 = r0.get_heads();
-    let mut m = r0.clone(); m.merge(&mut r1.clone()).unwrap();
-    let t = resolve(&m, Role::T).unwrap().0;
-    println!("text {:?} len {}", m.text(&t), m.length(&t));
-    for i in 0..m.length(&t)+1 { println!("{} {:?}", i, m.get_all(&t, i).map(|v| v.iter().map(|(v,id)| format!("{:?}@{}", v, id)).collect::<Vec<_>>())); }
-    println!("at h1: text {:?} len {}", m.text_at(&t, &h1), m.length_at(&t, &h1));
-    let o = amc::obs::observe(&m, None, &[]);
-    println!("{:?}", o.objs.get(&t.to_string()));
-    let f = m.fork();
-    println!("fork text {:?} len {}", f.text(&t), f.length(&t));
-    let l = automerge::Automerge::load(&m.save()).unwrap();
-    println!("load text {:?} len {}", l.text(&t), l.length(&t));
-}
-#[allow(dead_code)]
-pub fn second(){
-    let enc = TextEncoding::UnicodeCodePoint;
-    let b = base("B1", enc);
-    let mut r0 = b.fork().with_actor(actor(0x10));
-    let mut r1 = b.fork().with_actor(actor(0x90));
-    edit_commit(&mut r0, &Op::Put(Role::T, Key::I(Pos::Mid), Val::Str("w")));
-    let ha = r0.get_heads();
-    edit_commit(&mut r0, &Op::Splice(Role::T, Pos::Start, 0, "a"));
-    edit_commit(&mut r1, &Op::Put(Role::T, Key::I(Pos::Mid), Val::Str("w")));
-    let hb = r1.get_heads();
-    let mut m = r0.clone(); m.merge(&mut r1.clone()).unwrap();
-    let t = resolve(&m, Role::T).unwrap().0;
-    let mut h2 = ha.clone(); h2.extend(hb);
-    println!("AT H2: text {:?} len {}", m.text_at(&t, &h2), m.length_at(&t, &h2));
-    for i in 0..5 { println!("{} {:?}", i, m.get_all_at(&t, i, &h2).map(|v| v.iter().map(|(v,id)| format!("{:?}@{}", v, id)).collect::<Vec<_>>())); }
-    let f = m.fork_at(&h2).unwrap();
-    println!("fork_at: text {:?} len {}", f.text(&t), f.length(&t));
-    println!("spans_at {:?}", m.spans_at(&t, &h2).unwrap().collect::<Vec<_>>());
+    let b = base("B2", enc);
+    for with_rollback in [false, true] {
+        let mut d = AutoCommit::load_with_options(&b.save(), LoadOptions::new().text_encoding(enc)).unwrap().with_actor(actor(0x10));
+        let t = resolve(&d, Role::T).unwrap().0;
+        if with_rollback { d.splice_text(&t, 0, 0, "a").unwrap(); d.rollback(); }
+        let heads: Vec<ChangeHash> = b.get_changes(&[])[0..1].iter().map(|c| c.hash()).collect();
+        d.isolate(&heads);
+        d.splice_text(&t, 1, 0, "q").unwrap();
+        let h = d.commit();
+        let c = d.get_change_by_hash(&h.unwrap()).unwrap();
+        println!("rollback={} -> change actor {} seq {} deps {:?}", with_rollback, c.actor_id(), c.seq(), c.deps().len());
+        let actors: Vec<String> = d.get_changes(&[]).iter().map(|c| c.actor_id().to_string()).collect();
+        println!("   actors in history: {:?}", actors);
+    }
 }
